@@ -1045,6 +1045,16 @@ func (m *Manager) OfferSidecar(ctx context.Context, capacity,
 			"tickets", bid.Details().AuctionType)
 	}
 
+	// The recipient derives the lease maturity of the channel from the
+	// lease duration in the offer alone and a sidecar bid is only compared
+	// against an offer that names one. There is no market with a lease
+	// duration of zero blocks, so such an offer can never be ordered
+	// consistently.
+	if duration == 0 {
+		return nil, fmt.Errorf("lease duration of sidecar offer must " +
+			"be greater than zero")
+	}
+
 	// Make sure the capacity and push amounts are sane.
 	err := order.CheckOfferParams(
 		bid.AuctionType, capacity, pushAmt, order.BaseSupplyUnit,
